@@ -116,9 +116,10 @@ Fixpoint value_to_json (v : rval) : jr json :=
       end
   end.
 
-(* Context::to_json_value: the top-level record is serialised entry by entry, WITHOUT
-   check_for_reserved_keys on its own keys *)
+(* Context::to_json_value: check_for_reserved_keys on the top-level keys (as for any nested record;
+   /repo 4b26962), then the record is serialised entry by entry *)
 Definition context_to_json (pairs : list (str * rval)) : jr json :=
+  if existsb reserved_key (map fst pairs) then JErr EReservedKey else
   dj js <- jmapV value_to_json pairs; JOk (JObj js).
 
 (* ---------------------------------------------------------------- CedarValueJson *)
@@ -359,11 +360,6 @@ Definition context_from_json (ty : option sty) (j : json) : jr (list (str * rval
   | RRecord l => if rval_evaluable v then JOk l else JErr EEval
   | _ => JErr ENotARecord
   end.
-
-(* the context serialiser with the repair proposed for C10:context_top_level_reserved_key: the
-   top-level keys are checked like the keys of any nested record *)
-Definition context_to_json_fixed (pairs : list (str * rval)) : jr json :=
-  if existsb reserved_key (map fst pairs) then JErr EReservedKey else context_to_json pairs.
 
 (* ================================================================ entity level *)
 (* entities.rs: EntityJson, EntityJson::from_entity, EntityJsonParser::parse_ejson.
